@@ -38,8 +38,8 @@ MOD = "mcverif.checks.c10"
 TOL = 1e-12
 
 BOUNDS = {
-    "quick": {"gen_len": 3, "fix_len": 3, "macro_libs": ["gen1", "gen2", "fix"], "pattern_libs": ["pat2"], "dens": [None, 0.0, 1e-3, 2e-3], "lin_dens": [0.0, 1e-3, 2e-3]},
-    "thorough": {"gen_len": 4, "fix_len": 4, "macro_libs": ["gen1", "gen2", "gen3", "fix"], "pattern_libs": ["pat2", "pat3"], "dens": [None, 0.0, 5e-4, 1e-3, 2e-3], "lin_dens": [0.0, 5e-4, 1e-3, 2e-3]},
+    "quick": {"gen_len": 3, "fix_len": 3, "macro_libs": ["gen1", "gen2", "fix"], "pattern_libs": ["pat2"], "hist_fams": ["h2"], "hist_len": 4, "dens": [None, 0.0, 1e-3, 2e-3], "lin_dens": [0.0, 1e-3, 2e-3]},
+    "thorough": {"gen_len": 4, "fix_len": 4, "macro_libs": ["gen1", "gen2", "gen3", "fix"], "pattern_libs": ["pat2", "pat3"], "hist_fams": ["h2", "h3"], "hist_len": 5, "dens": [None, 0.0, 5e-4, 1e-3, 2e-3], "lin_dens": [0.0, 5e-4, 1e-3, 2e-3]},
 }
 MACRO_NUCS = ["U235", "FE56", "NA23"]
 MISSING_NUC = "PU239"  # a real nuclide that none of the libraries holds under the probed suffixes
@@ -284,8 +284,9 @@ PM_RX = ["neutronHeating", "neutronDamage", "gammaHeating"]
 NONLINEAR = ("diffusionConstants", "chi")
 
 
-def real_outputs(lib, suffix, comp, want_gamma):
-    """Every entry point on the real code. Values: ndarray | None | ('EXC', class name)."""
+def real_outputs(lib, suffix, comp, want_gamma, creator=None):
+    """Every entry point on the real code. Values: ndarray | None | ('EXC', class name).
+    ``creator``: a MacroscopicCrossSectionCreator that lives across calls (None: a fresh one per build)."""
     import numpy as np
 
     from armi.nuclearDataIO import xsCollections as xc
@@ -318,7 +319,7 @@ def real_outputs(lib, suffix, comp, want_gamma):
             continue
         try:
             with np.errstate(divide="ignore", invalid="ignore"):
-                m = xc.MacroscopicCrossSectionCreator().createMacrosFromMicros(lib, make_block(comp, suffix), libType=libType)
+                m = (creator or xc.MacroscopicCrossSectionCreator()).createMacrosFromMicros(lib, make_block(comp, suffix), libType=libType)
             for a in VECTOR_RX + MATRIX_RX + ["nuSigF", "absorption", "removal", "diffusionConstants", "chi"]:
                 v = getattr(m, a)
                 out["%s:%s" % (tag, a)] = None if v is None else np.array(v, dtype=float)
@@ -459,11 +460,11 @@ def _group_of(q):
     return "macro-creator-basic-xs"
 
 
-def check_comp(lib, T, libname, suffix, comp, want_gamma, vs, stats):
+def check_comp(lib, T, libname, suffix, comp, want_gamma, vs, stats, case=None, creator=None):
     import numpy as np
 
-    case = {"part": "macro", "lib": libname, "suffix": suffix, "comps": [comp]}
-    real, dens = real_outputs(lib, suffix, comp, want_gamma)
+    case = case or {"part": "macro", "lib": libname, "suffix": suffix, "comps": [comp]}
+    real, dens = real_outputs(lib, suffix, comp, want_gamma, creator)
     exp = expected_outputs(T, suffix, dens, want_gamma)
     what = "lib %s suffix %s composition %s" % (libname, suffix, json.dumps(comp, sort_keys=True))
     empty = not any(dens.values())
@@ -543,6 +544,89 @@ def eval_macro(case):
     if d:
         _bad(vs, "macro-computation-mutates-library", "lib %s: after the computations %s is %s, source has %s" % (case["lib"], d[0], L.show(d[2]), L.show(d[1])), case)
     return {"viols": vs, "stats": stats, "n": len(case["comps"])}
+
+
+HIST_OPS = [["fresh"], ["reuse"], ["merge"], ["del"], ["switch"], ["comp"]]
+HIST_DENS = [1e-3, 2e-3, 0.0, 5e-4]
+
+
+def eval_hist(case):
+    """History search of the macroscopic part. Two libraries live through a history: #0 and a variant #1
+    with the same labels and different data; ONE creator instance, the process-wide default-zero cache
+    and both library objects survive every operation. Operations: build with a fresh creator, build with
+    the reused creator, merge the second half of the nuclides into the current library, delete a nuclide
+    from it, switch to the other library, change the density pattern (the composition always spans the
+    nuclides the current library holds plus the deleted ones at density 0). After every build the oracle
+    is the direct recomputation from the current library's model state as it is NOW."""
+    from armi.nuclearDataIO import xsCollections as xc
+
+    _reset()
+    fam = L.HIST_FAMILIES[case["fam"]]
+    vs, stats = [], {}
+    libs, Ts, grown, gone = [], [], [False, False], [[], []]
+    for v in (0, 1):
+        libs.append(_rebuild([fam[("a", v)]]))
+        Ts.append(L.model_merge(L.model_empty(), src_obs(fam[("a", v)])))
+    creator = xc.MacroscopicCrossSectionCreator()
+    cur, pat, builds, outs = 0, 0, 0, []
+    for k, op in enumerate(case["ops"]):
+        sub = {"part": "hist", "fam": case["fam"], "ops": case["ops"][: k + 1]}
+        if op[0] == "merge":
+            if grown[cur]:
+                outs.append("noop")
+                continue
+            libs[cur].merge(L.build_member(fam[("b", cur)]))
+            Ts[cur] = L.model_merge(Ts[cur], src_obs(fam[("b", cur)]))
+            grown[cur] = True
+            outs.append("ok")
+        elif op[0] == "del":
+            victim = next((x for x in L.HIST_DELETE_ORDER if x in Ts[cur]["nuc"]), None)
+            if victim is None:
+                outs.append("noop")
+                continue
+            del libs[cur][victim]
+            T = dict(Ts[cur])
+            T["labels"] = [x for x in T["labels"] if x != victim]
+            T["nuc"] = {x: y for x, y in T["nuc"].items() if x != victim}
+            Ts[cur] = T
+            gone[cur].append(victim)
+            outs.append("ok")
+        elif op[0] == "switch":
+            cur = 1 - cur
+            outs.append("ok")
+        elif op[0] == "comp":
+            pat += 1
+            outs.append("ok")
+        else:
+            names = [x[:-2] for x in Ts[cur]["labels"]]
+            comp = {n: HIST_DENS[(i + pat) % len(HIST_DENS)] for i, n in enumerate(names)}
+            comp.update({x[:-2]: 0.0 for x in gone[cur]})
+            mine = []
+            check_comp(libs[cur], Ts[cur], "%s#%d after %s" % (case["fam"], cur, case["ops"][:k]), "AA", comp, True, mine, stats, case=sub, creator=creator if op[0] == "reuse" else None)
+            how = "macro-history-reused-" if op[0] == "reuse" else "macro-history-fresh-"
+            for v in mine:
+                # a first build on an untouched library is the plain grid's business; keep its key there
+                if builds or k:
+                    v["key"] = v["key"].replace("c10/macro-", "c10/" + how, 1)
+            vs += mine
+            builds += 1
+            outs.append("built")
+            # the library must be exactly what the model says after the build (nothing cached into it)
+            d = L.first_diff(Ts[cur]["nuc"], L.libobs(libs[cur])["nuc"], "/nuc")
+            if d:
+                _bad(vs, "macro-build-mutates-library", "%s %s: after the build %s is %s, model has %s" % (case["fam"], case["ops"][: k + 1], d[0], L.show(d[2]), L.show(d[1])), sub)
+    return {"viols": vs, "n": builds, "outs": outs, "stats": stats}
+
+
+def hist_cases(ctx):
+    bd = BOUNDS[ctx.tier]
+    out = []
+    for fam in bd["hist_fams"]:
+        for n in range(1, bd["hist_len"] + 1):
+            for pre in itertools.product(HIST_OPS, repeat=n - 1):
+                for last in (["fresh"], ["reuse"]):
+                    out.append({"part": "hist", "fam": fam, "ops": [list(o) for o in pre] + [last]})
+    return out
 
 
 def _z(a, like):
@@ -689,6 +773,8 @@ def evaluate(case):
         return eval_lin(case)["viols"]
     if part == "tsm":
         return eval_tsm(case)["viols"]
+    if part == "hist":
+        return eval_hist(case)["viols"]
     raise ValueError(part)
 
 
@@ -713,6 +799,8 @@ def _dispatch1(case):
         return eval_tsm(case)
     if part == "roundtrip":
         return eval_roundtrip(case)
+    if part == "hist":
+        return eval_hist(case)
     raise ValueError(part)
 
 
@@ -876,6 +964,26 @@ def run(ctx):
     ctx.count("total_scatter_collections", ntsm)
     ctx.log("macro: %d compositions, %d outputs, %d linearity/additivity relations" % (ncomp, nout, nlin))
 
+    # 3. macroscopic history search (reused creator / caches across library and composition changes)
+    hcases = ctx.order(hist_cases(ctx))
+    hres = core.pmap(MOD, "_dispatch", hcases)
+    nbuilds = 0
+    hops = {}
+    for c, r in zip(hcases, hres):
+        for v in r["viols"]:
+            k = (v["key"], json.dumps(v["case"], sort_keys=True))
+            if k not in seen_v:
+                seen_v.add(k)
+                ctx.add_violations([v])
+        nbuilds += r["n"]
+        for op, o in zip(c["ops"], r["outs"]):
+            hops[op[0] + ":" + o] = hops.get(op[0] + ":" + o, 0) + 1
+    ctx.count("macro_histories", len(hcases))
+    ctx.count("macro_history_builds_checked", nbuilds)
+    for k, v in sorted(hops.items()):
+        ctx.count("macro_history_op_" + k, v)
+    ctx.log("macro histories: %d histories, %d builds checked, cpu %.1f" % (len(hcases), nbuilds, sum(r["cpu"] for r in hres)))
+
     # simplest counterexample of every class first, independent of the exploration order
     def _simplest(v):
         j = json.dumps(v["case"], sort_keys=True)
@@ -893,13 +1001,16 @@ def run(ctx):
         exhaustive=True,
         max_sequence_length={"gen": bd["gen_len"], "fix": bd["fix_len"], "cross": 2},
         pool_sizes={"gen": len(L.pool_members("gen", ctx.quick)), "fix": len(L.FIXTURES)},
-        macro_evaluations=ncomp + nlin + ntsm,
+        macro_evaluations=ncomp + nlin + ntsm + nbuilds,
+        macro_histories=len(hcases),
+        macro_history_max_length=bd["hist_len"],
         macro_rule="every composition of the grid (library nuclide -> absent/0/densities) x missing nuclide (absent/0/1e-3) x library x suffix; every pair of grid compositions x 2 coefficient pairs for linearity",
     )
     ctx.assumptions += [
         "pool of %d generated members (1-3 groups, 8 labels, ISOTXS/GAMISO/PMATRX subsets, optional reactions, sparse scatter) + 6 repo fixtures; sequences of distinct members up to the stated length" % len(L.pool_members("gen", ctx.quick)),
         "generated members carry no file-wide chi; label order, source-file order and the (first-wins by design) library neutron velocity are not part of the order-free content, velocity is checked against 'first merged ISOTXS'",
         "a refusal is ImmutablePropertyError, OSError or AttributeError; 'target unchanged' is judged on the public observation (labels, per-nuclide data/metadata, properties, file metadata)",
+        "macroscopic histories: operations {fresh build, reused-creator build, merge second half, delete a nuclide, switch to a same-label library with different data, change density pattern}, every history up to the stated length ending in a build; the composition spans the nuclides the current library holds",
         "macroscopic oracles use tolerance 1e-12 relative; densities from a finite alphabet; compositions restricted to nuclides for which the library holds the kind of data being summed",
     ]
 
